@@ -810,6 +810,14 @@ archive_write_zip_header(struct archive_write *a, struct archive_entry *entry)
 		return ARCHIVE_FAILED;
 	}
 
+	/* A member needs a name (the code below looks at its last byte). */
+	if (archive_entry_pathname(entry) == NULL
+	    || archive_entry_pathname(entry)[0] == '\0') {
+		archive_set_error(&a->archive, ARCHIVE_ERRNO_MISC,
+		    "Can't record entry in zip file without pathname");
+		return ARCHIVE_FAILED;
+	}
+
 	/* If we're not using Zip64, reject large files. */
 	if (zip->flags & ZIP_FLAG_AVOID_ZIP64) {
 		/* Reject entries over 4GB. */
